@@ -298,10 +298,10 @@ func (x *Exec) assumeRange(v Val) {
 		return
 	}
 	if rf := rangeFact(v.T, v.S); rf != "" && len(v.S) < 200 {
-		x.sc.assert(rf)
+		x.assumeHere(rf)
 	}
 	if _, ok := under(v.T).(*types.Slice); ok && len(v.S) < 200 {
-		x.sc.assert(app("wfSlice", v.S))
+		x.assumeHere(app("wfSlice", v.S))
 	}
 }
 
@@ -830,8 +830,8 @@ func (x *Exec) rangeNext(fr *Frame, t *ssa.Next, st *State, reach Term) Val {
 		x.sc.assert(rf)
 	}
 	// ok => k in dom \ visited ; !ok => visited == dom (extensionally)
-	x.sc.assert(implies(okc, and(sel(dom, k), not(sel(vis, k)))))
-	x.sc.assert(implies(not(okc), fmt.Sprintf("(forall ((kk %s)) (! (= (select %s kk) (select %s kk)) :pattern ((select %s kk)) :pattern ((select %s kk))))", rs.ksort, vis, dom, vis, dom)))
+	x.assumeHere(implies(okc, and(sel(dom, k), not(sel(vis, k)))))
+	x.assumeHere(implies(not(okc), fmt.Sprintf("(forall ((kk %s)) (! (= (select %s kk) (select %s kk)) :pattern ((select %s kk)) :pattern ((select %s kk))))", rs.ksort, vis, dom, vis, dom)))
 	nv := x.name("vis", "(Array "+rs.ksort+" Bool)", ite(okc, store(vis, k, "true"), vis))
 	st.cells[rs.visited] = nv
 	tup := []Val{{T: types.Typ[types.Bool], S: okc}, {T: mt.Key(), S: k}}
